@@ -65,18 +65,20 @@ def path_rec(s):
     return {"k": k, "i": i, "t": t}
 
 
-def build_frame(pd, groups, chunk_of, part):
-    """groups: list of {k, g}; chunk_of: g -> chunk index.  Returns (frame, row_group_offsets)."""
+def build_frame(pd, groups, chunk_of, part, nchunks=None):
+    """groups: list of {k, g}; chunk_of: g -> chunk index.  Returns (frame, row_group_offsets).
+    An empty chunk yields two equal offsets (it consumes a part number but writes no file)."""
     rows = []
+    if nchunks is None:
+        nchunks = (max(chunk_of.values()) + 1) if chunk_of else 1
     offs = []
-    cur = None
-    for gr in groups:
-        c = chunk_of[gr["g"]]
-        if c != cur:
-            offs.append(len(rows))
-            cur = c
-        for j in range(rows_of(gr["g"])):
-            rows.append((KEYVALS.get(gr["k"], 0), xval(gr["g"], j), "s%05d" % xval(gr["g"], j)))
+    for c in range(nchunks):
+        offs.append(len(rows))
+        for gr in groups:
+            if chunk_of[gr["g"]] != c:
+                continue
+            for j in range(rows_of(gr["g"])):
+                rows.append((KEYVALS.get(gr["k"], 0), xval(gr["g"], j), "s%05d" % xval(gr["g"], j)))
     df = pd.DataFrame({"p": pd.Series([r[0] for r in rows], dtype="int64"),
                        "x": pd.Series([r[1] for r in rows], dtype="int64"),
                        "s": pd.Series([r[2] for r in rows], dtype="str")})
@@ -92,6 +94,25 @@ def chunks_from_steps(steps):
         if s["c"] == "openw" and s["p"]["k"] >= 0:
             m[s["g"]] = nums.index(s["p"]["i"])
     return m
+
+
+def chunk_map(opr, part):
+    """g -> chunk index and number of chunks, from the frame argument TLC exported"""
+    groups = opr.get("groups") or opr.get("newgroups") or []
+    frame = opr.get("frame")
+    if not frame:
+        m = chunks_from_steps(opr["steps"])
+        return m, ((max(m.values()) + 1) if m else 1)
+    m = {}
+    it = iter(groups)
+    for c, keys in enumerate(frame):
+        n = len(keys) if part else 1
+        for _ in range(n):
+            try:
+                m[next(it)["g"]] = c
+            except StopIteration:
+                break
+    return m, len(frame)
 
 
 def project(d):
@@ -217,12 +238,14 @@ def do_op(fp, pd, d, opr, rec, part):
     fs = make_fs(rec)
     kw = dict(open_with=fs.open, mkdirs=rec.mkdirs)
     if kind == "write":
-        df, offs = build_frame(pd, opr["groups"], chunks_from_steps(steps), part)
+        cm, nch = chunk_map(opr, part)
+        df, offs = build_frame(pd, opr["groups"], cm, part, nch)
         fp.write(d, df, file_scheme="hive", row_group_offsets=offs, partition_on=["p"] if part else [],
                  write_index=False, **kw)
         return
     groups = opr["newgroups"]
-    df, offs = build_frame(pd, groups, chunks_from_steps(steps), part)
+    cm, nch = chunk_map(opr, part)
+    df, offs = build_frame(pd, groups, cm, part, nch)
     if kind == "append":
         fp.write(d, df, file_scheme="hive", row_group_offsets=offs, partition_on=["p"] if part else [],
                  append=True, write_index=False, **kw)
@@ -318,8 +341,9 @@ def abstract_pre(pr, model, ordered, ng):
 def begin_event(opr, part):
     steps = opr["steps"]
     groups = opr.get("groups") or opr.get("newgroups") or []
-    ch = chunks_from_steps(steps)
-    nchunks = (max(ch.values()) + 1) if ch else 0
+    ch, nchunks = chunk_map(opr, part)
+    if not groups:
+        nchunks = 0
     frame = [[] for _ in range(nchunks)]
     for gr in groups:
         frame[ch[gr["g"]]].append(gr["k"] if part else 1)
